@@ -42,6 +42,7 @@ type ctx struct {
 	id  string
 	fs  []finding
 	obs map[string]int
+	firstV3 bool // outbound_resume: the session is created by an MQTT 3.1.1 connection
 	adv struct {
 		T, R uint16
 		P    uint32
@@ -430,7 +431,36 @@ func (x *ctx) outbound(resume bool) error {
 	var s *wire.Client
 	var err error
 	inflightBig, inflightFrom := "", 0
-	if resume {
+	if resume && x.firstV3 {
+		// the session is created by an MQTT 3.1.1 connection (no limits exist there) and resumed by an MQTT 5 one that
+		// declares its maxima: what was queued meanwhile is sized and sent by the rules of the connection it goes to
+		first, err := wire.Dial(x.id, x.b.Addr, mqttx.V311)
+		if err != nil {
+			return err
+		}
+		if _, err := first.Connect(&mqttx.Packet{ClientID: x.id, CleanStart: false}, step); err != nil {
+			first.Close()
+			return err
+		}
+		if _, err := first.Subscribe([]mqttx.Sub{{Filter: base + "#", QoS: 1}}, 0, step); err != nil {
+			first.Close()
+			return err
+		}
+		x.b.Srv.Publisher().Publish(&gmqtt.Message{Topic: base + "t1", Payload: []byte("warm-up-end"), QoS: 1})
+		if err := first.WaitPayload("warm-up-end", step); err != nil {
+			first.Close()
+			return fmt.Errorf("warm-up: %w", err)
+		}
+		if err := first.Ping(step); err != nil {
+			return err
+		}
+		from := x.b.Log.Len()
+		first.Disconnect(0, nil)
+		if _, ok := x.b.Log.Wait(from, func(e broker.Event) bool { return e.Kind == "OnClosed" && e.Client == x.id }, step); !ok {
+			return fmt.Errorf("first connection not closed")
+		}
+		x.obs["outbound_sessions_created_by_v3_resumed_by_v5"]++
+	} else if resume {
 		exp := uint32(3600)
 		a1 := uint16(65535)
 		p1 := &mqttx.Props{SessionExpiry: &exp, TopicAliasMax: &a1}
@@ -710,6 +740,9 @@ func runCase(c Case, idx int) (fs []finding, obs map[string]int, err error) {
 		err = x.outbound(false)
 	case "outbound_resume":
 		err = x.outbound(true)
+	case "outbound_resume_v3":
+		x.firstV3 = true
+		err = x.outbound(true)
 	}
 	for _, e := range b.Log.Events() {
 		if e.Kind == "OnClosed" && (strings.Contains(e.Err, "runtime error") || strings.Contains(e.Err, "index out of range") || strings.Contains(e.Err, "nil pointer")) {
@@ -743,6 +776,7 @@ func allCases(r *monitor.Run) []Case {
 		for k := 0; k < 2; k++ {
 			cs = append(cs, Case{Cfg: cf, Script: "outbound_resume", M: ms[(i+k)%4], A: as[(i/4+k+1)%4]})
 		}
+		cs = append(cs, Case{Cfg: cf, Script: "outbound_resume_v3", M: ms[(i+2)%3], A: as[(i/3)%4]})
 	}
 	if r.Quick() {
 		rng := r.Rand("sample")
@@ -750,9 +784,9 @@ func allCases(r *monitor.Run) []Case {
 		// make sure every script and the extreme values appear
 		keep := cs[:110]
 		for _, c := range cs[110:] {
-			if (c.Cfg.ReceiveMax == 65535 && c.Cfg.TopicAliasMax == 65535 && c.Script == "in_alias") || (c.Script == "outbound" && c.M == 48 && c.A == 65535 && c.Cfg.MaxInflight == 1) {
+			if (c.Cfg.ReceiveMax == 65535 && c.Cfg.TopicAliasMax == 65535 && c.Script == "in_alias") || (c.Script == "outbound" && c.M == 48 && c.A == 65535 && c.Cfg.MaxInflight == 1) || (c.Script == "outbound_resume_v3" && c.Cfg.ReceiveMax == 5 && c.Cfg.MaxPacketSize == 300) {
 				keep = append(keep, c)
-				if len(keep) > 120 {
+				if len(keep) > 135 {
 					break
 				}
 			}
@@ -914,7 +948,7 @@ func subscriptionIdentifiersAtTheLimit(r *monitor.Run) {
 	}
 	vs := []variant{
 		{[]uint32{5}, 4}, {[]uint32{200}, 4}, {[]uint32{20000}, 4}, {[]uint32{3000000}, 4}, {[]uint32{268435455}, 4},
-		{[]uint32{5, 268435455}, 4}, {[]uint32{127, 128}, 4}, {[]uint32{268435455}, 0}, {[]uint32{16384, 16383}, 0},
+		{[]uint32{5, 268435455}, 4}, {[]uint32{127, 128}, 4}, {[]uint32{128}, 0}, {[]uint32{16384}, 0}, {[]uint32{2097152}, 4}, {[]uint32{268435455}, 0}, {[]uint32{16384, 16383}, 0},
 	}
 	for vi, v := range vs {
 		const M = uint32(100)
@@ -1003,7 +1037,123 @@ func subscriptionIdentifiersAtTheLimit(r *monitor.Run) {
 	}
 }
 
+// lengthFieldBoundaries: the size the broker computes for a message decides whether it is sent; where a length field of the
+// packet (remaining length, property length) sits exactly on a boundary of the variable byte integer encoding (127|128,
+// 16383|16384) an error of one byte in that computation sends a packet of M+1 bytes or drops one of M bytes. For each such
+// length: a subscriber declaring exactly the packet's size receives it, one declaring a byte less never sees a packet above
+// its limit and the message is reported dropped.
+func lengthFieldBoundaries(r *monitor.Run) {
+	b, err := broker.Start(broker.Options{Cfg: func(c *config.Config) { c.MQTT.MessageExpiry = 0 }})
+	if err != nil {
+		r.Inconclusive(err.Error())
+		return
+	}
+	defer b.Stop(step)
+	type shape struct {
+		what    string
+		rl      int // wanted remaining length (0: do not care)
+		propLen int // wanted property length (0: none)
+	}
+	var shapes []shape
+	for _, rl := range []int{126, 127, 128, 129, 16382, 16383, 16384, 16385} {
+		shapes = append(shapes, shape{what: fmt.Sprintf("remaining_length_%d", rl), rl: rl})
+	}
+	for _, pl := range []int{126, 127, 128, 129} {
+		shapes = append(shapes, shape{what: fmt.Sprintf("property_length_%d", pl), propLen: pl})
+		shapes = append(shapes, shape{what: fmt.Sprintf("property_length_%d_remaining_length_16384", pl), propLen: pl, rl: 16384})
+	}
+	for si, sh := range shapes {
+		topic := fmt.Sprintf("lf/%d", si)
+		var user []mqttx.UserProp
+		var guser []packets.UserProperty
+		if sh.propLen > 0 {
+			k := "k"
+			v := strings.Repeat("v", sh.propLen-1-2-len(k)-2)
+			user = []mqttx.UserProp{{K: k, V: v}}
+			guser = []packets.UserProperty{{K: []byte(k), V: []byte(v)}}
+		}
+		mk := func(payload int) *mqttx.Packet {
+			return &mqttx.Packet{Type: mqttx.PUBLISH, Topic: topic, QoS: 1, PacketID: 1, Payload: bytes.Repeat([]byte("p"), payload), Props: &mqttx.Props{User: user}}
+		}
+		pl := 10
+		if sh.rl > 0 {
+			// size = 1 + len(varint(rl)) + rl
+			hdr := 2
+			if sh.rl > 127 {
+				hdr = 3
+			}
+			if sh.rl > 16383 {
+				hdr = 4
+			}
+			pl = sh.rl
+			for pl > 0 && mqttx.Size(mk(pl), mqttx.V5) > sh.rl+hdr {
+				pl--
+			}
+			for mqttx.Size(mk(pl), mqttx.V5) < sh.rl+hdr {
+				pl++
+			}
+			if mqttx.Size(mk(pl), mqttx.V5) != sh.rl+hdr {
+				r.Inconclusive(fmt.Sprintf("length boundaries: cannot build %s", sh.what))
+				continue
+			}
+		}
+		size := mqttx.Size(mk(pl), mqttx.V5)
+		for _, d := range []int{0, -1} {
+			M := uint32(size + d)
+			id := fmt.Sprintf("lf-%d-%d", si, -d)
+			c, err := wire.Dial(id, b.Addr, mqttx.V5)
+			if err != nil {
+				r.Inconclusive(err.Error())
+				return
+			}
+			if _, err := c.Connect(&mqttx.Packet{ClientID: id, CleanStart: true, Props: &mqttx.Props{MaxPacketSize: &M}}, step); err != nil {
+				r.Inconclusive(err.Error())
+				c.Close()
+				return
+			}
+			if _, err := c.Subscribe([]mqttx.Sub{{Filter: topic, QoS: 1}, {Filter: "lfend/" + id, QoS: 1}}, 0, step); err != nil {
+				r.Inconclusive(err.Error())
+				c.Close()
+				return
+			}
+			from := b.Log.Len()
+			b.Srv.Publisher().Publish(&gmqtt.Message{Topic: topic, Payload: bytes.Repeat([]byte("p"), pl), QoS: 1, UserProperties: guser})
+			b.Srv.Publisher().Publish(&gmqtt.Message{Topic: "lfend/" + id, Payload: []byte("end"), QoS: 1})
+			err = c.WaitPayload("end", step)
+			r.Eval(1)
+			got := false
+			for _, rec := range c.Publishes() {
+				if uint32(rec.Size) > M {
+					r.Violation(fmt.Sprintf("outbound.oversize_at_varint_boundary:%s:excess=%d", sh.what, rec.Size-int(M)), fmt.Sprintf("a PUBLISH of %d bytes was sent to a client whose Maximum Packet Size is %d (%s)", rec.Size, M, sh.what), nil)
+				}
+				if len(rec.P.Payload) == pl && rec.P.Topic == topic {
+					got = true
+				}
+			}
+			dropped := false
+			for _, e := range b.Log.Events()[from:] {
+				if e.Kind == "OnMsgDropped" && e.Client == id {
+					dropped = true
+				}
+			}
+			switch {
+			case err != nil:
+				r.Violation("outbound.dead_at_varint_boundary:"+sh.what, fmt.Sprintf("the connection did not deliver the small message that followed: %v (ctl %v)", err, c.Ctl()), nil)
+			case !got && !dropped:
+				r.Violation("outbound.missing_at_varint_boundary:"+sh.what, fmt.Sprintf("a message of %d bytes (limit %d) was neither delivered nor reported dropped", size, M), nil)
+			case d == 0 && !got:
+				// it fits: dropping it is a loss (C01's business), counted here
+				r.Count("outbound_varint_boundary_dropped_although_fitting", 1)
+			}
+			c.Close()
+			r.Count("outbound_varint_boundary_cases", 1)
+			r.Nontrivial(id)
+		}
+	}
+}
+
 func Run(r *monitor.Run) {
+	lengthFieldBoundaries(r)
 	subscriptionIdentifiersAtTheLimit(r)
 	aliasAtLengthBoundaries(r)
 	serialAtTheLimit(r)
